@@ -129,7 +129,7 @@ type Pair struct {
 // GenPair generates an (inner, outer) pair in which the inner extensions
 // [From,To) also occur, byte-identical and in the same relative order, in the
 // outer hello, so that they may be replaced by an ech_outer_extensions list.
-func GenPair(r *rand.Rand, publicName, innerSNI string, innerALPN []string, extraIn, extraOut, maxData int) *Pair {
+func GenPair(r *rand.Rand, publicName, innerSNI string, innerALPN []string, extraIn, extraOut, maxData, minRun int) *Pair {
 	sid := r.IntN(33)
 	if r.IntN(3) == 0 {
 		sid = 32
@@ -140,11 +140,11 @@ func GenPair(r *rand.Rand, publicName, innerSNI string, innerALPN []string, extr
 	in.Exts = append(in.Exts[:pos:pos], append([]Ext{ECHInnerExt()}, in.Exts[pos:]...)...)
 	// choose a run that does not contain the ECH marker
 	from, to := 0, 0
-	if len(in.Exts) > 1 && r.IntN(5) != 0 {
-		for try := 0; try < 8; try++ {
+	if len(in.Exts) > 1 && (minRun > 0 || r.IntN(5) != 0) {
+		for try := 0; try < 64; try++ {
 			a := r.IntN(len(in.Exts))
 			b := a + 1 + r.IntN(len(in.Exts)-a)
-			ok := true
+			ok := b-a >= minRun
 			for _, e := range in.Exts[a:b] {
 				if e.Type == ExtECH || e.Type == ExtSNI {
 					ok = false
